@@ -4,6 +4,7 @@ import (
 	"fmt"
 	"go/ast"
 	"go/types"
+	"regexp"
 	"strings"
 )
 
@@ -20,7 +21,7 @@ var tripFieldNames = map[string]string{
 	"t.ID.ID": "id", "t.ID.RouteID": "routeId", "t.ID.DirectionID": "dir", "t.ID.HasStartDate": "hasStartDate",
 	"t.ID.StartDate.Unix()": "startDate", "t.ID.HasStartTime": "hasStartTime", "t.ID.StartTime": "startTime",
 	"t.ID.ScheduleRelationship": "sr",
-	"stu.StopSequence": "stopSequence", "stu.StopID": "stopId", "stu.NyctTrack": "track", "stu.ScheduleRelationship": "sr",
+	"stu.StopSequence":          "stopSequence", "stu.StopID": "stopId", "stu.NyctTrack": "track", "stu.ScheduleRelationship": "sr",
 	"event.Time": "time", "event.Uncertainty": "uncertainty", "dp": "delay",
 	"v.ID.ID": "id", "v.ID.Label": "label", "v.ID.LicensePlate": "licensePlate",
 	"v.Position.Latitude": "latitude", "v.Position.Longitude": "longitude", "v.Position.Bearing": "bearing",
@@ -52,11 +53,11 @@ func basicWidth(t types.Type) (int, error) {
 }
 
 type hashGen struct {
-	c    *ctx
-	p    pkgT
-	defs []string          // emitted sub-record field/encoder definitions, in dependency order
-	seen map[string]string // name -> body, to check that repeated groups agree
-	notes []string         // optional fields of the source unknown to the model (hashed as absent)
+	c     *ctx
+	p     pkgT
+	defs  []string          // emitted sub-record field/encoder definitions, in dependency order
+	seen  map[string]string // name -> body, to check that repeated groups agree
+	notes []string          // optional fields of the source unknown to the model (hashed as absent)
 }
 
 // define emits `def <name>Fields (v : <typ>) := ..` and `def enc<Name>Fields := ..` once.
@@ -369,7 +370,17 @@ func genHashSchema(c *ctx) (string, error) {
 		return "", err
 	}
 	vehDefs := g.defs
-	// the helper encoders must have the shapes the combinators assume
+	// the helper encoders must have the shapes the combinators assume (compared after renaming the hasher's two
+	// fields to h – the hash function – and b – the buffer –, whatever they are called in the source)
+	hf, bf := hasherFields(p)
+	if hf == "" || bf == "" {
+		return "", fmt.Errorf("hash: hasher is not a struct of a hash.Hash and a bytes.Buffer")
+	}
+	norm := func(s string) string {
+		s = regexp.MustCompile(`\.`+regexp.QuoteMeta(hf)+`\b`).ReplaceAllString(s, ".h")
+		s = regexp.MustCompile(`\.`+regexp.QuoteMeta(bf)+`\b`).ReplaceAllString(s, ".b")
+		return s
+	}
 	for _, chk := range []struct{ recv, name, want string }{
 		{"hasher", "string", "{ h.number(uint64(len(s))) h.flush() h.h.Write([]byte(s)) }"},
 		{"hasher", "stringPtr", "{ h.number(a == nil) if a != nil { h.string(*a) } }"},
@@ -377,7 +388,7 @@ func genHashSchema(c *ctx) (string, error) {
 		{"hasher", "flush", "{ h.h.Write(h.b.Bytes()) h.b.Reset() }"},
 	} {
 		fd := findMethod(p, chk.recv, chk.name)
-		if fd == nil || exprString(c, fd.Body) != chk.want {
+		if fd == nil || norm(exprString(c, fd.Body)) != chk.want {
 			got := "<missing>"
 			if fd != nil {
 				got = exprString(c, fd.Body)
@@ -388,15 +399,19 @@ func genHashSchema(c *ctx) (string, error) {
 	if fd := findFunc(p, "hashNumberPtr"); fd == nil || exprString(c, fd.Body) != "{ h.number(a == nil) if a != nil { h.number(*a) } }" {
 		return "", fmt.Errorf("hash: helper hashNumberPtr changed")
 	}
-	if fd := findMethod(p, "hasher", "number"); fd == nil || !strings.Contains(exprString(c, fd.Body), "binary.Write(&h.b, binary.LittleEndian, a)") {
+	if fd := findMethod(p, "hasher", "number"); fd == nil || !strings.Contains(norm(exprString(c, fd.Body)), "binary.Write(&h.b, binary.LittleEndian, a)") {
 		return "", fmt.Errorf("hash: helper number changed")
 	}
-	for _, m := range []struct{ recv, name, want string }{
-		{"Trip", "Hash", "{ s := hasher{h: h} s.trip(t) s.flush() }"},
-		{"Vehicle", "Hash", "{ s := hasher{h: h} s.vehicle(v) s.flush() }"},
+	for _, m := range []struct{ recv, name, enc string }{
+		{"Trip", "Hash", "trip"},
+		{"Vehicle", "Hash", "vehicle"},
 	} {
 		fd := findMethod(p, m.recv, m.name)
-		if fd == nil || exprString(c, fd.Body) != m.want {
+		if fd == nil || len(fd.Recv.List[0].Names) != 1 {
+			return "", fmt.Errorf("hash: %s.%s changed shape", m.recv, m.name)
+		}
+		want := fmt.Sprintf("{ s := hasher{%s: %s} s.%s(%s) s.flush() }", hf, paramName(fd, 0), m.enc, fd.Recv.List[0].Names[0].Name)
+		if exprString(c, fd.Body) != want {
 			return "", fmt.Errorf("hash: %s.%s changed shape", m.recv, m.name)
 		}
 	}
@@ -421,4 +436,25 @@ func genHashSchema(c *ctx) (string, error) {
 	sb.WriteString("/-- optional fields and groups the source hashes that the model's records do not have (hashed as absent) -/\n")
 	fmt.Fprintf(&sb, "def unmodelledOptionalFields : List String := %s\n\nend Gtfs.Gen.HashSchema\n", leanStrListNL(dedupStrings(g.notes)))
 	return sb.String(), nil
+}
+
+// hasherFields: the names of the hash.Hash field and of the bytes.Buffer field of `hasher`
+func hasherFields(p pkgT) (hashField, bufField string) {
+	obj := p.Types.Scope().Lookup("hasher")
+	if obj == nil {
+		return "", ""
+	}
+	st, ok := obj.Type().Underlying().(*types.Struct)
+	if !ok || st.NumFields() != 2 {
+		return "", ""
+	}
+	for i := 0; i < st.NumFields(); i++ {
+		switch st.Field(i).Type().String() {
+		case "hash.Hash":
+			hashField = st.Field(i).Name()
+		case "bytes.Buffer":
+			bufField = st.Field(i).Name()
+		}
+	}
+	return
 }
